@@ -423,8 +423,8 @@ func blockTrail(c *Ctx, bs []*ssa.BasicBlock) []string {
 
 // unjustifiedPath: a path entry -> ret that passes no justifier (instruction or edge).
 func (pi *parserInfo) unjustifiedPath(fn *ssa.Function, ret *ssa.Return, obeys map[*ssa.Function]bool) []*ssa.BasicBlock {
-	isParseExpression := fn.Name() == "parseExpression"
-	lambdaTok := pi.c.tokenConst("LAMBDA")
+	// (an earlier version accepted "the next token is =>" in parseExpression as a justifier for the nil of
+	// `() => ...`: that was the defect D70 itself - any token was dropped silently before =>)
 	edgeJustified := func(b *ssa.BasicBlock, e int) bool {
 		ifi, ok := b.Instrs[len(b.Instrs)-1].(*ssa.If)
 		if !ok {
@@ -435,11 +435,6 @@ func (pi *parserInfo) unjustifiedPath(fn *ssa.Function, ret *ssa.Return, obeys m
 			case *ssa.Call:
 				if isCallTo(x, pi.expectPeek) && cc.Edge == 1 {
 					return true
-				}
-				if isParseExpression && isCallTo(x, pi.peekTokenIs) && cc.Edge == 0 {
-					if k, ok := constInt(x.Common().Args[1]); ok && k == lambdaTok {
-						return true // the `() => ...` form: the nil is consumed by parseLambdaMulti
-					}
 				}
 			case *ssa.UnOp:
 				if pi.isFieldAddr(x.X, pi.contIdx) && cc.Edge == 0 {
